@@ -402,10 +402,14 @@ class Snapshot(object):
 				if now[0] != self.probe[0]:
 					bad.append(("output_changed", "model output on the probe batch differs"))
 				if now[1:] != self.probe[1:]:
-					k = [i for i in range(1, len(now)) if now[i] != self.probe[i]]
-					a = res[k[0]]
-					bad.append(("gradient_changed", "ordinary gradients differ after the "
-						"call (grad #%d of [input]+parameters)" % (k[0] - 1)))
+					if len(now) != len(self.probe):
+						bad.append(("gradient_changed", "the set of parameters that receive "
+							"ordinary gradients changed (%d -> %d tensors)" % (
+							len(self.probe) - 1, len(now) - 1)))
+					else:
+						k = [i for i in range(1, len(now)) if now[i] != self.probe[i]]
+						bad.append(("gradient_changed", "ordinary gradients differ after the "
+							"call (grad #%d of [input]+parameters)" % (k[0] - 1)))
 		return bad
 
 
